@@ -8,7 +8,10 @@ package zzsimos
 
 import (
 	"fmt"
+	"os"
+	"strings"
 	"sync"
+	"syscall"
 
 	"github.com/z7zmey/php-parser/pkg/zzsim"
 )
@@ -117,3 +120,73 @@ func Fatalln(a ...interface{})             { LogPrintln(a...); Exit(1) }
 func Fatalf(f string, a ...interface{})    { LogPrintf(f, a...); Exit(1) }
 func Panic(a ...interface{})               { s := fmt.Sprint(a...); LogPrint(s); panic(s) }
 func Panicf(f string, a ...interface{})    { s := fmt.Sprintf(f, a...); LogPrint(s); panic(s) }
+
+// ---- file-system faults (the files themselves are real)
+
+// FSFault makes ReadFile / WriteFile fail for paths ending in Suffix.
+type FSFault struct {
+	Suffix string
+	Kind   string // write-err | write-torn | read-err
+}
+
+var (
+	fsFaults []FSFault
+	fsFired  = map[string]int64{}
+)
+
+// SetFSFaults installs the faults of the next invocation (nil: none).
+func SetFSFaults(f []FSFault) {
+	mu.Lock()
+	fsFaults = f
+	fsFired = map[string]int64{}
+	mu.Unlock()
+}
+
+// FSFired reports how often each fault kind fired since SetFSFaults.
+func FSFired() map[string]int64 {
+	mu.Lock()
+	defer mu.Unlock()
+	out := map[string]int64{}
+	for k, v := range fsFired {
+		out[k] = v
+	}
+	return out
+}
+
+func fsFault(name string, kinds ...string) string {
+	mu.Lock()
+	defer mu.Unlock()
+	for _, f := range fsFaults {
+		if strings.HasSuffix(name, f.Suffix) {
+			for _, k := range kinds {
+				if f.Kind == k {
+					fsFired[k]++
+					return k
+				}
+			}
+		}
+	}
+	return ""
+}
+
+// WriteFile replaces ioutil.WriteFile / os.WriteFile in cmd/php-parser.
+func WriteFile(name string, data []byte, perm os.FileMode) error {
+	switch fsFault(name, "write-err", "write-torn") {
+	case "write-err":
+		return &os.PathError{Op: "open", Path: name, Err: syscall.EACCES}
+	case "write-torn":
+		if err := os.WriteFile(name, data[:len(data)/2], perm); err != nil {
+			return err
+		}
+		return &os.PathError{Op: "write", Path: name, Err: syscall.ENOSPC}
+	}
+	return os.WriteFile(name, data, perm)
+}
+
+// ReadFile replaces ioutil.ReadFile / os.ReadFile in cmd/php-parser.
+func ReadFile(name string) ([]byte, error) {
+	if fsFault(name, "read-err") != "" {
+		return nil, &os.PathError{Op: "open", Path: name, Err: syscall.EACCES}
+	}
+	return os.ReadFile(name)
+}
